@@ -53,6 +53,7 @@ static __thread int tid = -1;
 static long steps, step_limit = 200000;
 static int cond_seq_ctr;
 static int point_after_unlock = 1;
+static int free_switch = 1; // 1: choices among several enabled threads at a blocking point are free (CHESS); 0: non-default picks cost a deviation
 
 struct Mx { void* addr; int owner; int rec; };
 static struct Mx mt[MAXM];
@@ -186,14 +187,14 @@ static void decide(int self_enabled, const char* label)
         int n_ord = 0;
         for (int i = 0; i < n; i++) if (!tmo[i]) n_ord++;
         if (n_ord > 0) {
-            c = n_ord > 1 ? vxs_choose(n_ord, 0, label) : 0;
+            c = n_ord > 1 ? vxs_choose(n_ord, !free_switch, label) : 0;
             // a timeout firing although another thread could run: deviation-priced alternative
             if (n > n_ord && c == 0) {
                 int d = vxs_choose(1 + (n - n_ord), 1, "timeout");
                 if (d > 0) c = n_ord + d - 1;
             }
         } else {
-            c = n > 1 ? vxs_choose(n, 0, label) : 0;
+            c = n > 1 ? vxs_choose(n, !free_switch, label) : 0;
         }
     }
     int next = opts[c];
@@ -290,14 +291,36 @@ int pthread_cond_wait(pthread_cond_t* c, pthread_mutex_t* m)
     if (!managed()) { resolve(); return real_cwait(c, m); }
     return model_cond_wait(c, m, 0);
 }
+// A timed wait whose deadline has already passed returns ETIMEDOUT at once (after releasing and reacquiring
+// the mutex, with a scheduling point in between); one with a deadline in the future is "enabled by timeout".
+static int deadline_passed(clockid_t clk, const struct timespec* ts)
+{
+    struct timespec now;
+    if (clock_gettime(clk, &now)) return 0;
+    return now.tv_sec > ts->tv_sec || (now.tv_sec == ts->tv_sec && now.tv_nsec >= ts->tv_nsec);
+}
+static int model_expired_wait(pthread_mutex_t* m)
+{
+    struct Mx* x = mx_get(m);
+    if (x->owner != tid) vxs_fatal(5, "vx-sched: cond wait without owning the mutex");
+    int saved_rec = x->rec;
+    x->rec = 0;
+    x->owner = -1;
+    sched_point("cond-expired");
+    model_acquire(m, "cond-reacquire");
+    mx_get(m)->rec = saved_rec;
+    return ETIMEDOUT;
+}
 int pthread_cond_timedwait(pthread_cond_t* c, pthread_mutex_t* m, const struct timespec* ts)
 {
     if (!managed()) { resolve(); return real_ctimedwait(c, m, ts); }
+    if (deadline_passed(CLOCK_REALTIME, ts)) return model_expired_wait(m);
     return model_cond_wait(c, m, 1);
 }
 int pthread_cond_clockwait(pthread_cond_t* c, pthread_mutex_t* m, clockid_t clk, const struct timespec* ts)
 {
     if (!managed()) { resolve(); return real_cclockwait(c, m, clk, ts); }
+    if (deadline_passed(clk, ts)) return model_expired_wait(m);
     return model_cond_wait(c, m, 1);
 }
 static int cond_wake(pthread_cond_t* c, int all)
@@ -314,7 +337,7 @@ static int cond_wake(pthread_cond_t* c, int all)
             for (int i = 0; i < n; i++)
                 for (int j = i + 1; j < n; j++)
                     if (th[w[j]].cond_seq < th[w[i]].cond_seq) { int tmp = w[i]; w[i] = w[j]; w[j] = tmp; }
-            pick = vxs_choose(n, 0, "signal-target");
+            pick = vxs_choose(n, !free_switch, "signal-target");
         }
         int t = w[pick];
         th[t].state = T_BLK_MUTEX;
@@ -472,3 +495,4 @@ int vxs_end(void)
 }
 long vxs_steps(void) { return steps; }
 void vxs_set_point_after_unlock(int v) { point_after_unlock = v; }
+void vxs_set_free_switch(int v) { free_switch = v; }
